@@ -20,6 +20,12 @@ def diffPos (h : Store) (l : List ObjId) (pos : Nat) : List ObjId → List Nat
       if (h.get t).value ≠ (h.get s).value then pos :: diffPos h l (pos + 1) rest
       else diffPos h l (pos + 1) rest
 
+/-- specification of index-set deletion: the entries whose position (counted from `n`) is not in
+`idx`, in their original order -/
+def keepFrom (idx : List Nat) (n : Nat) : List ObjId → List ObjId
+  | [] => []
+  | a :: t => if n ∈ idx then keepFrom idx (n + 1) t else a :: keepFrom idx (n + 1) t
+
 /-- names of register `k` are pairwise different -/
 def namesUniqueB (s : State) (k : Nat) : Bool := decide (names s.heap (s.lists k)).Nodup
 
@@ -50,6 +56,31 @@ def Op.keepsNames : Op → Bool
   | .apNamespace .. => false
   | _ => true
 
+/-- registers through which the operation may write parameter objects (everything else it
+leaves alone; allocation of new objects is not a write) -/
+def Op.writes : Op → List Nat
+  | .share k j _ | .shareAll k j | .apMatch k j => [k, j]
+  | .incl k _ | .setValue k .. | .setAllValues k _ | .setValues k _ | .matchValues k .. | .setAllParams k _
+  | .setParams k _ | .matchParams k _ | .shareSubNames k .. | .shareSubIdxs k .. | .apSetAll k _
+  | .apSetValue k .. | .apSetValues k _ | .apNamespace k _ => [k]
+  | _ => []
+
+/-- the register whose list the operation may replace -/
+def Op.dest : Op → Option Nat
+  | .add k _ | .addPtr k _ | .addAll k _ | .share k .. | .shareAll k _ | .incl k _ | .setParam k .. | .delName k _
+  | .delNames k .. | .delIdx k _ | .delIdxs k _ | .reset k => some k
+  | .subNames _ j _ | .subName _ j _ | .subIdxs _ j _ | .subIdx _ j _ | .shareSubNames _ j _ | .shareSubIdxs _ j _
+  | .copy _ j | .assign _ j => some j
+  | .common _ _ m => some m
+  | _ => none
+
+/-- clause `frame`: objects outside the written registers are untouched, registers other than
+the destination keep their list -/
+def clauseFrame (n : Nat) (b : State) (op : Op) (a : State) : Bool :=
+  (List.range b.heap.next).all (fun i =>
+    op.writes.any (fun r => (b.lists r).contains i) || a.heap.get i == b.heap.get i) &&
+  (List.range n).all (fun r => op.dest == some r || a.lists r == b.lists r)
+
 /-- clause `bulk_atomic`: an atomic operation that raised changed nothing -/
 def clauseAtomic (n : Nat) (b : State) (op : Op) (out : Out) (a : State) : Bool :=
   !(op.atomic && out.isErr) || unchanged n b a
@@ -67,6 +98,7 @@ def checkStep (n : Nat) (b : State) (op : Op) (out : Out) (a : State) : Option S
   if !clauseNames n b op a then some "names_unique"
   else if !clauseOk n b a then some "list_param_inv"
   else if !clauseAtomic n b op out a then some "bulk_atomic"
+  else if !clauseFrame n b op a then some "frame"
   else none
 
 end Bpp.ParamList
